@@ -37,6 +37,7 @@ structure DSt where
   ackAccepted : Nat := 0
   refusedPre : Nat := 0        -- refused for OK/Up or a bad expiry
   refusedAcked : Nat := 0      -- refused because already acknowledged
+  ackGone : Nat := 0           -- accepted with an expiry already in the past (cluster): set and cleared at once
   removes : Nat := 0
   advances : Nat := 0
   setEvents : Nat := 0
@@ -142,6 +143,7 @@ def bump (d : DSt) (op : Op) (io : Obs) : DSt := Id.run do
   | .ack via _ _ _ ex nw =>
     d := { d with acks := d.acks + 1 }
     if io.acc then d := { d with ackAccepted := d.ackAccepted + 1, caseSet := true }
+    if io.acc && io.ack == .none then d := { d with ackGone := d.ackGone + 1 }
     else if preRefuse d.cfg d.st via ex nw then d := { d with refusedPre := d.refusedPre + 1 }
     else d := { d with refusedAcked := d.refusedAcked + 1 }
   | .remove _ _ =>
@@ -202,4 +204,4 @@ def main : IO Unit := do
   let stdin ← IO.getStdin
   let d ← foldLines stdin handle ({} : DSt)
   let d := closeCase d
-  IO.println s!"STATS cases={d.caseNo} steps={d.steps} results={d.results} dropped={d.dropped} state_changes={d.stateChanges} acks={d.acks} ack_accepted={d.ackAccepted} refused_ok_or_expiry={d.refusedPre} refused_acked={d.refusedAcked} removes={d.removes} advances={d.advances} set_events={d.setEvents} cleared_events={d.clearedEvents} clr_expiry={d.clrExpiry} clr_normal_change={d.clrNormal} clr_sticky_recovery={d.clrSticky} sticky_kept_on_change={d.stickyKept} clr_remove={d.clrRemove} ack_notifs={d.ackNotifs} problem_notifs={d.problemNotifs} handled_looks={d.handledLooks} comments_removed={d.cmtRemoved} comments_kept_later={d.cmtKeptLater} comments_kept_persistent={d.cmtKeptPersistent} nontrivial={d.nontrivial} mismatches={d.mismatches} specfails={d.specfails}"
+  IO.println s!"STATS cases={d.caseNo} steps={d.steps} results={d.results} dropped={d.dropped} state_changes={d.stateChanges} acks={d.acks} ack_accepted={d.ackAccepted} refused_ok_or_expiry={d.refusedPre} refused_acked={d.refusedAcked} ack_gone_at_once={d.ackGone} removes={d.removes} advances={d.advances} set_events={d.setEvents} cleared_events={d.clearedEvents} clr_expiry={d.clrExpiry} clr_normal_change={d.clrNormal} clr_sticky_recovery={d.clrSticky} sticky_kept_on_change={d.stickyKept} clr_remove={d.clrRemove} ack_notifs={d.ackNotifs} problem_notifs={d.problemNotifs} handled_looks={d.handledLooks} comments_removed={d.cmtRemoved} comments_kept_later={d.cmtKeptLater} comments_kept_persistent={d.cmtKeptPersistent} nontrivial={d.nontrivial} mismatches={d.mismatches} specfails={d.specfails}"
